@@ -42,7 +42,7 @@
 EXTENDS Values, Json
 
 CONSTANTS Families,     \* set of family names enumerated by this configuration
-          Size,         \* "quick" | "thorough" | "sim" | "simbig": the bounds table below
+          Size,         \* "quick" | "thorough" | "sim" | "src" | "srcq": the bounds table below
           Sim,          \* TRUE: target lengths drawn in Init (for -simulate)
           Deviations,   \* deviations the laws are checked under ({} = the reference)
           KnownDevs     \* recorded deviations of the code: code-side prediction in REPLAY lines
@@ -323,7 +323,9 @@ AllFamilies == { "list1", "enum", "zip", "slice", "join", "tuple", "str1", "spli
                  "substr", "parseint", "maybe", "basetype", "shaped", "anyall" }
 
 Big == Size = "sim"
-T(q, t, g) == CASE Size = "quick" -> q [] Size = "thorough" -> t [] OTHER -> g     \* quick / thorough / simulation
+T(q, t, g) == CASE Size = "quick" -> q [] Size = "thorough" -> t                 \* quick / thorough / simulation;
+                [] Size = "src" -> (IF q > 2 THEN q - 1 ELSE q)                    \* "src"/"srcq": StdlibSrc.tla
+                [] Size = "srcq" -> (IF q > 2 THEN q - 2 ELSE q) [] OTHER -> g     \*   (the std sources under Eval.tla)
 MaxX(f) ==
   CASE f \in {"list1", "slice", "enum", "join"} -> T(4, 5, 12)
     [] f = "zip"   -> T(4, 4, 12)
@@ -336,7 +338,7 @@ MaxY(f) ==
     [] f \in {"join", "split"} -> T(2, 3, 3)
     [] f = "tuple" -> T(2, 2, 4)
     [] f = "shaped" -> 1
-    [] f = "anyall" -> T(2, 2, 3)
+    [] f = "anyall" -> (IF Size = "srcq" THEN 1 ELSE T(2, 2, 3))
     [] OTHER -> 0
 MinY(f) == IF f \in {"split", "shaped"} THEN 1 ELSE 0
 
@@ -376,7 +378,8 @@ SC3 == << TupleV(<< Fld("n1", ListV(<< TupleV(<< Fld("n1", IntV(1)), Fld("n2", I
           TupleV(<< Fld("n1", TupleV(<< Fld("n1", TupleV(<< Fld("n2", IntV(1)) >>)) >>)) >>),
           ListV(<< ListV(<< TupleV(<< Fld("n1", IntV(1)), Fld("n2", IntV(1)) >>) >>) >>),
           ListV(<< ListV(<< TupleV(<< Fld("n1", IntV(1)) >>) >>) >>) >>
-SVals ==   CASE Size = "quick" -> SD1 \o SD2a
+SVals ==   CASE Size = "srcq" -> SD1
+             [] Size \in {"quick", "src"} -> SD1 \o SD2a
              [] Size = "thorough" -> SD1 \o SD2a \o SD2b \o SC3
              [] OTHER -> SD1 \o SD2a \o SD2b \o SC3
 SValsSmall == SD1
@@ -403,7 +406,7 @@ PoolY(f) ==
     [] f \in {"join", "split"} -> SepPool
     [] f = "tuple" -> AskNames
     [] f = "shaped" -> SVals
-    [] f = "anyall" -> (IF Size = "quick" THEN SShapesQ ELSE SShapes)
+    [] f = "anyall" -> (IF Size \in {"quick", "src", "srcq"} THEN SShapesQ ELSE SShapes)
     [] OTHER -> << >>
 (* may item be appended to x?  (tuples: distinct field names)                 *)
 OkX(f, x, item) == f = "tuple" => \A j \in 1..Len(x) : x[j].nm # item.nm
